@@ -406,7 +406,7 @@ def case_pred(ctx, res, p):
     except Exception as e:
         out = ("err", err_kind(e), str(e)[:160])
     if (out[0] == "ok" and multi is None and t["kind"] == "none" and x["kind"] == "arr" and normalize in (False, True)
-            and np.asarray(x["data"]).ndim == 2):
+            and np.asarray(x["data"]).ndim == 2 and not (meth in DERIV and tp["mode"] == "absent")):
         # this call IS the trailing-column reference call: remember it instead of repeating it
         routine0 = "mean_normalized" if (meth == "mean" and normalize) else meth
         flag0 = ("T" if diag else "F") if meth in COVM else "-"
@@ -487,8 +487,19 @@ def case_pred(ctx, res, p):
             res.oracle_fail("time together with multi_time is not refused with ValueError", p,
                             detail={"got": "ok" if out[0] == "ok" else out[1:]}, signature=f"C13:both:{tp['mode']}")
         return
-    if normalize == "X" or not nobs_ok or (meth in DERIV and multi is None and tp["mode"] == "absent"):
+    if normalize == "X" or not nobs_ok:
         return      # refusal branches outside the property's statement (correspondence only)
+    if meth in DERIV and multi is None and tp["mode"] == "absent" and c == f + 1:
+        # finding H3-C2 (repaired): the derivative methods take the time from the trailing column when `time` is left
+        # out, like mean / covariance / mean_covariance / uncertainty, bit-identical to p.meth(Xt, None) (the reference
+        # is never this call itself: see the _REF guard above).  On a tree without the fix: TypeError, missing argument.
+        ref = ref_call(P, pkey, meth, "-", np.ascontiguousarray(xa), jit)
+        if out[0] != "ok":
+            res.oracle_fail(f"{meth}(Xt) with the time as trailing column and no time argument is refused", p,
+                            detail={"got": out[1:]}, signature="C13:derivative-time-default")
+        elif not same_bits(out[1], ref):
+            res.oracle_fail(f"{meth}(Xt) differs from {meth}(Xt, None)", p, signature="C13:derivative-time-default")
+        return
     if multi is None:
         exp = expected_column(t, n, True)
         width = c + (0 if exp[0] == "none" else 1)
@@ -634,6 +645,14 @@ def gen_pred(ctx, res, quick, t_end):
             ts[int(rng.integers(1, k))] = ts[0]         # a repeat
         return ts
 
+    # (0) always run (regression of finding H3-C2, signature C13:derivative-time-default): each derivative method with the
+    #     time as trailing column and NO time argument, against the explicit p.meth(Xt, None)
+    Xt0 = np.column_stack([np.round(rng.normal(size=(n, f)), 3), np.round(rng.normal(size=n) + 1, 3)])
+    cls0 = classes[int(rng.integers(3))]
+    for meth in METHODS:
+        if meth in DERIV:
+            run_case(ctx, res, mk(cls0, meth, xdesc(Xt0), {"mode": "pos", "time": none_t}))
+            run_case(ctx, res, mk(cls0, meth, xdesc(Xt0), {"mode": "absent", "time": none_t}))
     # (a) every method x class x forms (all forms in thorough; a seed-rotated subset in quick: the AD-based methods
     #     cost ~0.25 s per call because jax re-traces jacrev/jacfwd on every call)
     order = [(meth, cls) for meth in METHODS if meth not in DERIV for cls in classes] + \
@@ -655,8 +674,7 @@ def gen_pred(ctx, res, quick, t_end):
         Xt = np.column_stack([X, col])
         # trailing column, with time absent / None given explicitly
         run_case(ctx, res, mk(cls, meth, xdesc(Xt), {"mode": "pos", "time": none_t}, **flags(meth)))
-        if meth not in DERIV:
-            run_case(ctx, res, mk(cls, meth, xdesc(Xt), {"mode": "absent", "time": none_t}, **flags(meth)))
+        run_case(ctx, res, mk(cls, meth, xdesc(Xt), {"mode": "absent", "time": none_t}, **flags(meth)))
         for name, t in forms:
             mode = "pos" if rng.random() < 0.5 else "kw"
             run_case(ctx, res, mk(cls, meth, xdesc(X), {"mode": mode, "time": t}, **flags(meth)))
@@ -758,7 +776,9 @@ CLAIM = {
             "array-likes of any rank broadcast to all rows; a 1-D or one-column time of any other length, any other rank or "
             "column count, and a wrong feature count are refused with ValueError; all eight PredictorTime methods hand their "
             "family routine exactly that merged matrix (gradient/hessian/log-det: its state columns and its time column; the "
-            "inner re-merge of each row restores the row); time (positional or keyword) together with multi_time is refused "
+            "inner re-merge of each row restores the row); leaving `time` out is `time=None` for each of the eight methods "
+            "(time_default_is_none; the four derivative methods required it before the repair of H3-C2); time (positional or "
+            "keyword) together with multi_time is refused "
             "with ValueError for every method and every x; multi_time results are, position by position (repeats included), "
             "the single-time results, for scalars and for per-row rows, and a multi_time call is refused exactly when the "
             "single-time call is. Tied to /repo by running validate_time_x and the three real time-aware predictor classes x "
